@@ -35,6 +35,8 @@ KEYS = {
                ('options', 'output.selfClosingStyle', ['xml', 'xhtml', 'html', 'xml', 'xhtml']),
                ('snippets', 'vsnip', ['x-la', 'x-lb', 'x-lc', 'x-ld', 'x-le']),
                ('snippets', 'bq', ['x-la', 'x-lb', 'x-lc', 'x-ld', 'x-le']),
+               ('snippets', 'iframe', ['x-fa', 'x-fb', 'x-fc', 'x-fd', 'x-fe']),       # also observed through its built-in alias `ifr`
+               ('snippets', 'textarea', ['x-ta', 'x-tb', 'x-tc', 'x-td', 'x-te']),     # ... `tarea`
                ('variables', 'vvar', ['V1', 'V2', 'V3', 'V4', 'V5']),
                ('variables', 'lang', ['V1', 'V2', 'V3', 'V4', 'V5'])],
     'stylesheet': [('options', 'stylesheet.between', ['<1>', '<2>', '<3>', '<4>', '<5>']),
@@ -114,7 +116,13 @@ def observe_expand(typ, kind, key, u, g):
         if kind == 'snippets':
             out = emmet.expand(key, u, g)
             m = re.match(r'[<%]?([\w:-]+)', out)
-            return m.group(1) if m else ('?' + out)
+            direct = m.group(1) if m else ('?' + out)
+            alias = {'iframe': 'ifr', 'textarea': 'tarea'}.get(key)
+            if alias and direct.startswith('x-'):
+                # a built-in alias of this key resolves through the SAME layered table (it is not overridden itself)
+                out2 = emmet.expand(alias, u, g)
+                return direct if out2 == out else 'direct=%s | through the alias %s=%s' % (out[:80], alias, out2[:80])
+            return direct
         if kind == 'variables':
             out = emmet.expand('x-a{${%s}}' % key, u, g)
             m = re.search(r'x-a(?:>| )(.*?)(?:</x-a>)?$', out)
@@ -221,6 +229,8 @@ def run_combo(ctx, C, typ, syn, kind, key, vals, subset, orig_sc, can_patch, for
             want = key if typ == 'markup' else None     # unmatched stylesheet key: fuzzy search decides (C06)
         elif kind == 'snippets' and typ == 'stylesheet':
             want = exp.split(':')[0]
+        elif kind == 'snippets':
+            want = re.match(r'[\w:-]+', exp).group(0)      # the element a markup definition starts with
         if kind == 'variables' and exp is ABSENT:
             want = None
         if want is not None:
@@ -314,6 +324,8 @@ def run_multi(ctx, C, typ, syn, rng, orig_sc, can_patch):
                 want = key if typ == 'markup' else None
             elif kind == 'snippets' and typ == 'stylesheet':
                 want = exp.split(':')[0]
+            elif kind == 'snippets':
+                want = re.match(r'[\w:-]+', exp).group(0)
             if kind == 'variables' and exp is ABSENT:
                 want = None
             if want is not None and not (kind == 'options' and key == 'output.indent' and any(k[1] == 'inlineElements' for k in plan)):
